@@ -785,3 +785,31 @@ func deepClone(v reflect.Value) reflect.Value {
 	}
 	return v
 }
+
+// ByteTotal sums the lengths of all byte slices and strings below v.
+func ByteTotal(v reflect.Value) int {
+	switch v.Kind() {
+	case reflect.Slice:
+		if v.Type().Elem().Kind() == reflect.Uint8 {
+			return v.Len()
+		}
+		n := 0
+		for i := 0; i < v.Len(); i++ {
+			n += ByteTotal(v.Index(i))
+		}
+		return n
+	case reflect.String:
+		return 2 * v.Len()
+	case reflect.Struct:
+		n := 0
+		for i := 0; i < v.NumField(); i++ {
+			n += ByteTotal(v.Field(i))
+		}
+		return n
+	case reflect.Ptr:
+		if !v.IsNil() {
+			return ByteTotal(v.Elem())
+		}
+	}
+	return 0
+}
